@@ -400,7 +400,7 @@ Section ExactMain.
       pose proof Hf as Hfi. apply frag_obj_inv in Hfi. destruct Hfi as (nl & k & Hcl & -> & -> & -> & Hone & ->).
       pose proof Hcl as Hcases. apply classify_cases in Hcases.
       cbn [frag] in Hf. rewrite Hcl in Hf. change (frag_kind cls D k items props req ap oneo = true) in Hf.
-      cbn [no_nullable_enum] in Hne. rewrite Hcl in Hne.
+      cbn [no_nullable_enum union_of] in Hne. rewrite Hcl in Hne.
       cbn [shape] in Hs. rewrite Hcl in Hs.
       destruct Hcases as [(l & tt & -> & -> & Hsp & Hkt)
                          |(-> & -> & -> & -> & -> & -> & -> & -> & -> & -> & -> & -> & -> & Hrk)].
